@@ -207,6 +207,16 @@ def str_definitely_distinct(a, b):
     pa, pb = str_parts(a), str_parts(b)
     if not any(isinstance(p, Atom) for p in pa + pb):
         return True
+    # strip the common leading and trailing parts: a = P + ra + Q, b = P + rb + Q  =>  a == b iff ra == rb
+    la_, lb_ = list(pa), list(pb)
+    while la_ and lb_ and la_[0] == lb_[0] and isinstance(la_[0], Atom):
+        la_.pop(0); lb_.pop(0)
+    while la_ and lb_ and la_[0] == lb_[0]:
+        la_.pop(0); lb_.pop(0)
+    while la_ and lb_ and la_[-1] == lb_[-1]:
+        la_.pop(); lb_.pop()
+    if (la_ != list(pa) or lb_ != list(pb)) and not any(isinstance(p, Atom) for p in la_ + lb_):
+        return "".join(la_) != "".join(lb_)
     # same atom skeleton and same leading literal, different trailing literals
     ska = [p for p in pa if isinstance(p, Atom)]
     skb = [p for p in pb if isinstance(p, Atom)]
